@@ -216,6 +216,9 @@ def check_xor(ctx, rep, fn, pred_names):
 
 def run(ctx):
     rep = ctx.report
+    from .common import check_record_leaks as _recleaks
+    rep.rule('R13.6', 'a Record built for a user callable never leaves the operator: output rows are plain tuples')
+    ctx.floor('record_building_functions', _recleaks(ctx, rep, 'R13.6', ctx.functions(['petl.transform.selects'])), 2)
     rep.explanation = (
         'Decides that every selector applies exactly its documented predicate and that complement is the exact Boolean '
         'complement: (R13.1) the guard of the yield in iterfieldselect / iterrowselect / itersearch is evaluated for all '
